@@ -16,18 +16,18 @@ IsEv(e) == l <= Len(Log) /\ Log[l].e = e /\ l' = l + 1
 SetOfPairs(h) == { <<h[i][1], h[i][2]>> : i \in DOMAIN h }
 ReqOf(ev) == [m |-> ev.m, t |-> ev.t, v |-> ev.v, h |-> SetOfPairs(ev.h), b |-> ev.b]
 
-Idle == wf = FALSE /\ expected = <<>> /\ total = 0 /\ fed = 0 /\ taken = 0 /\ ngot = 0 /\ mismatch = FALSE /\ broken = {}
+Idle == wf = FALSE /\ claimed = FALSE /\ expected = <<>> /\ total = 0 /\ fed = 0 /\ taken = 0 /\ ngot = 0 /\ mismatch = FALSE /\ broken = {}
         /\ closed = FALSE /\ ended = TRUE
 TInit == Idle /\ l = 1
 
-TStream == IsEv("Stream") /\ ended /\ total = 0 /\ PStart(Ev.bytes, Ev.mode = "srv")
+TStream == IsEv("Stream") /\ ended /\ total = 0 /\ PStart(Ev.bytes, Ev.mode = "srv", Ev.claim = "wf")
 TSeg == IsEv("Seg") /\ PRecv(Ev.n)
 TParse == IsEv("Parse") /\ PCall(Ev.given, Ev.consumed, Ev.st)
 TReq == IsEv("Req") /\ PDeliver(ReqOf(Ev))
 TClosed == IsEv("Closed") /\ PClosed
 TWriteFailed == IsEv("ClientWriteFailed") /\ UNCHANGED pvars    \* the client could not write (server shut its read side): not a verdict
 TEnd == IsEv("End") /\ ~ended /\ PEnd
-TReset == IsEv("Reset") /\ wf' = FALSE /\ expected' = <<>> /\ total' = 0 /\ fed' = 0 /\ taken' = 0 /\ ngot' = 0 /\ mismatch' = FALSE
+TReset == IsEv("Reset") /\ wf' = FALSE /\ claimed' = FALSE /\ expected' = <<>> /\ total' = 0 /\ fed' = 0 /\ taken' = 0 /\ ngot' = 0 /\ mismatch' = FALSE
           /\ broken' = {} /\ closed' = FALSE /\ ended' = TRUE
 TNext == TStream \/ TSeg \/ TParse \/ TReq \/ TClosed \/ TWriteFailed \/ TEnd \/ TReset
 TSpec == TInit /\ [][TNext]_tvars
